@@ -583,6 +583,52 @@ def generate_round5(bdir):
                         [t for t in shape(f, {"apply_master_ob": True, "safe_apply_master_ob": True, "apply": True, "error": True},
                                           fields=("owner",))
                          if "func_ref" not in t and "hdr.args" not in t]))
+    # ---- make_new_name: the clone counter (`cloneSeq`) -----------------------------------------------------------------
+    f = ast_function(bdir, "src/simulate.c", "make_new_name")
+    items = []
+    for n, _ in walk(f):
+        k = n.get("kind")
+        if k == "VarDecl" and n.get("name") == "i":
+            items.append((off(n), "decl %s i = %s" % (n.get("storageClass", "auto"), cx(kids(n)[-1]) if kids(n) else "?")))
+        elif k == "CallExpr" and kids(n) and cx(kids(n)[0]) == "sprintf":
+            items.append((off(n), "sprintf(" + ", ".join(cx(a) for a in kids(n)[2:]) + ")"))
+        elif k == "UnaryOperator" and n.get("opcode") in ("++", "--") and cx(kids(n)[0]) == "i":
+            items.append((off(n), ("post" if n.get("isPostfix") else "pre") + n["opcode"] + " i"))
+        elif k in ("BinaryOperator", "CompoundAssignOperator") and n.get("opcode", "").endswith("=") and n.get("opcode") not in ("==", "!=", "<=", ">=") \
+                and cx(kids(n)[0]) == "i":
+            items.append((off(n), cx(n)))
+    items.sort()
+    L.append(lean_shape("makeNewNameShape", "make_new_name: one static counter starting at 1, name = <str>#<counter>, incremented once per call",
+                        [t for _, t in items]))
+    # ---- destruct_object: the simul_efun refusal and the vital-object branch (master reload) ------------------------------
+    f = ast_function(bdir, "src/simulate.c", "destruct_object")
+    keep = ("master_ob", "simul_efun_ob", "vital_obj_name", "new_ob")
+    sh = [t for t in shape(f, {"set_master": True, "set_simul_efun": True, "error": True}, variables=("new_ob", "vital_obj_name"))
+          if "config_str" not in t]
+    L.append(lean_shape("destructVitalShape", "destruct_object: what concerns the master / simul_efun object - the refusal to destruct the "
+                        "simul_efun object while a master exists, the reload of a vital object through load_object (on behalf of the "
+                        "caller: its euid test) followed by set_master / set_simul_efun",
+                        [t for t in sh if any(x in t for x in keep) or t.startswith(("load_object", "set_master", "set_simul_efun"))
+                         or "Cannot destruct simul_efun" in t or "vital object" in t]))
+    # ---- error texts the model renders (canonical form of the harness: newline dropped, blanks -> `_`) ---------------------
+    def err_text(relsrc, fn, needle):
+        ff = ast_function(bdir, relsrc, fn)
+        for n, _ in walk(ff):
+            if n.get("kind") == "CallExpr" and kids(n) and cx(kids(n)[0]) == "error" and len(kids(n)) > 1:
+                t = cx(kids(n)[1])
+                if needle in t:
+                    t = t.strip('"')
+                    if t.endswith("\\n"):
+                        t = t[:-2]
+                    return t.replace(" ", "_")
+        raise TieBroken("errtext:" + fn, "error text containing `%s` not found in %s" % (needle, fn))
+    L.append("/-- the driver's error texts behind the model's `Err` outcomes, in the harness's canonical form -/\n"
+             "def errTexts : List String := [" + ", ".join(lean_str(x) for x in [
+                 err_text("src/simulate.c", "load_object", "no effective user"),
+                 err_text("src/simulate.c", "clone_object", "without effective UID"),
+                 err_text("lib/efuns/uids.c", "f_export_uid", "export uid 0"),
+                 err_text("src/simulate.c", "destruct_object", "simul_efun_object"),
+                 err_text("lib/lpc/operator.c", "f_bind", "Permission of binding")]) + "]")
     f = ast_function(bdir, "src/simulate.c", "init_object")
     L.append(lean_shape("initObjectShape", "init_object: nothing but give_uid_to_object",
                         shape(f, {"give_uid_to_object": True})))
